@@ -16,7 +16,7 @@ import (
 
 func init() {
 	streams["COMMIT"] = streamCommit
-	streamRules["COMMIT"] = "constructed squares (as in BUILDER): for every placed blob GenerateSubtreeRoots bytes vs the Lean NMT/SHA-256 model, and the oracle of C05: every subtree root equals an inner node the real nmt library visits while computing the row root over the same shares, no chunk spans two rows, CreateCommitment == merkleRoot(subtree roots), the roots do not depend on the placement; row roots of the square also go through the model; non-trivial = distinct (blob shares, threshold, start index)"
+	streamRules["COMMIT"] = "constructed squares (as in BUILDER): for every placed blob GenerateSubtreeRoots bytes vs the Lean NMT/SHA-256 model, and the oracle of C05: every subtree root equals an inner node the real nmt library visits while computing the row root over the same shares, no chunk spans two rows, CreateCommitment == merkleRoot(subtree roots), the roots do not depend on the placement; row roots of the square also go through the model; non-trivial = distinct (blob shares, threshold, start index) Added: history and representation independence (flat [namespace|data] record), CreateCommitments vs CreateCommitment, concurrent commitments, 1024-share blobs vs an independent nmt reference."
 }
 
 // rowInnerNodes computes the row root with the real nmt library and records every visited node.
